@@ -1,7 +1,208 @@
-(* C02 — placeholder while the proofs are being built: examples only. *)
-From Ka Require Import Model.Parser Model.Printer.
-Open Scope string_scope.
+(* C02 — Expressions group exactly as the documented precedence and associativity.
+   Statements only; each is closed by [exact <lemma>].
 
-Example C02_ex_sub : parse [KVar "a"; KMinus; KVar "b"; KMinus; KVar "c"]
-  = Ok (PStmts [PCall "-" [PCall "-" [PVar "a"; PVar "b"] []; PVar "c"] []]).
+   Objects: token lists [tok], parse trees [ptree] (mirroring ka.parse.ParseNode), the model
+   [parse] of ka.parse.parse_tokens (Model/Parser.v, tied to the code by the correspondence
+   run of harness/props/c02.py on every token sequence up to length 4/5 and on printed
+   trees), the surface syntax [sst] with explicit parenthesis nodes, [desugar : sst -> ptree]
+   and the two printers [print_min] (parentheses only where the rule table of
+   Model/Printer.v requires) and [print_full] (every compound operand parenthesised).
+
+   ALL STAGES of DESIGN.md are proved, so no clause is partial: the theorems quantify over every
+   program = statement list (assignments and expression statements) over every surface tree:
+   numbers, identifiers, strings, instants, parentheses, one unary sign, postfix "!", the three
+   binary levels "^" > "* / %" > "+ - ±" (left-associative), ranges, intervals, calls with
+   positional and keyword arguments, arrays, comprehensions (generators and conditions),
+   quantities and conversions with unit signatures (exponents, "|"), single and double
+   comparison chains (all eight operators incl. "=" and "in", with the flip of all-backward
+   chains) — at any depth and nesting.  The only hypothesis is [wf_prog] (Model/Printer.v): a unit
+   list is not empty and a comprehension has at least one clause (no text exists otherwise). *)
+From Ka Require Import Model.Parser Model.Printer Proofs.ParserProofs Proofs.ParserProofs2 Proofs.ParserProofs3.
+Open Scope string_scope.
+Open Scope list_scope.
+
+(* The minimal text of every program parses to exactly the tree the rule table prescribes. *)
+Theorem C02_min_roundtrip : forall p, wf_prog p = true ->
+  parse (print_min p) = Ok (desugar_prog p).
+Proof. exact (roundtrip Min). Qed.
+
+(* So does the fully parenthesised text. *)
+Theorem C02_full_roundtrip : forall p, wf_prog p = true ->
+  parse (print_full p) = Ok (desugar_prog p).
+Proof. exact (roundtrip Full). Qed.
+
+(* Hence both texts parse to the same tree ... *)
+Theorem C02_min_equals_full : forall p, wf_prog p = true ->
+  parse (print_min p) = parse (print_full p).
+Proof. exact min_equals_full. Qed.
+
+(* ... and evaluate to the same value, whatever evaluation is (a function of the tree). *)
+Theorem C02_same_value : forall (V : Type) (eval : ptree -> V) p, wf_prog p = true ->
+  exists t, parse (print_min p) = Ok t /\ parse (print_full p) = Ok t /\
+            forall t1 t2, parse (print_min p) = Ok t1 -> parse (print_full p) = Ok t2 -> eval t1 = eval t2.
+Proof. exact same_value. Qed.
+
+(* Adding parenthesis nodes anywhere (programs equal after [strip]ping them) changes neither
+   the minimal nor the full text's parse. *)
+Theorem C02_redundant_parens : forall m p p',
+  wf_prog p = true -> wf_prog p' = true ->
+  map strip_stmt p' = map strip_stmt p ->
+  parse (print_prog m p') = parse (print_prog m p).
+Proof. exact redundant_parens. Qed.
+
+(* LEFT ASSOCIATIVITY, the key lemma: the operator loop of parse_binary_op, run on printed
+   items  op1 x1 ... opn xn  whose operands parse to t1 ... tn, returns the left fold
+   ((acc op1 t1) op2 t2) ... opn tn. *)
+Theorem C02_loop_correct : forall (operand : parser ptree) isop rest,
+  noop isop rest ->
+  forall items, items_ok operand isop rest items ->
+  forall acc fuel, (List.length (flat_items items ++ rest) < fuel)%nat ->
+  binloop operand isop fuel acc (flat_items items ++ rest) = POk (fold_items isop items acc, rest).
+Proof. exact loop_correct. Qed.
+
+(* The minimal printer really omits the parentheses of a left-nested operand of the same level
+   (unless it ends in a unit signature in front of "^") and keeps those of a right-nested one. *)
+Theorem C02_left_nested_no_parens : forall o o' a b c,
+  binlevel_of o' = binlevel_of o -> ends_units (SBin o' a b) = false ->
+  raw Min (SBin o (SBin o' a b) c)
+  = raw Min (SBin o' a b) ++ tok_of_bin o :: pr Min (pred (binlevel_of o)) false c.
+Proof. exact left_nested_text. Qed.
+
+Theorem C02_right_nested_parens : forall o o' a b c,
+  binlevel_of o' = binlevel_of o ->
+  raw Min (SBin o a (SBin o' b c))
+  = pr Min (binlevel_of o) (match o with BPow => true | _ => false end) a
+    ++ tok_of_bin o :: KLP :: raw Min (SBin o' b c) ++ [KRP].
+Proof. exact right_nested_text. Qed.
+
+(* A positional argument (any printed operand) never starts "identifier :", so it is never taken
+   for a keyword argument. *)
+Theorem C02_positional_never_keyword : forall m L pl x k,
+  nocolon k -> starts_var_colon (pr m L pl x ++ k) = false.
+Proof. exact pr_no_var_colon. Qed.
+
+(* A keyword argument is recognised only as "name : value" after the positional arguments. *)
+Theorem C02_kwarg_position : forall f x k v,
+  parse [KVar f; KLP; KVar x; KComma; KVar k; KColon; KVar v; KRP]
+    = Ok (PStmts [PCall f [PVar x] [(k, PVar v)]])
+  /\ parse [KVar f; KLP; KVar k; KColon; KVar v; KComma; KVar x; KRP] = Raise ParsingError
+  /\ parse [KVar f; KLP; KVar k; KColon; KVar v; KComma; KVar x; KColon; KVar v; KRP]
+    = Ok (PStmts [PCall f [] [(k, PVar v); (x, PVar v)]])
+  /\ parse [KVar f; KLP; KLP; KVar k; KRP; KColon; KVar v; KRP] = Raise ParsingError.
+Proof. intros. vm_compute. repeat split. Qed.
+
+(* "name = expr" at the start of a statement is an assignment; "=" elsewhere is a comparison. *)
+Theorem C02_assignment_position : forall x y n,
+  parse [KVar x; KAssign; KNum n] = Ok (PStmts [PAssign x (PNum n)])
+  /\ parse [KVar y; KSemi; KVar x; KAssign; KNum n] = Ok (PStmts [PVar y; PAssign x (PNum n)])
+  /\ parse [KLP; KVar x; KAssign; KNum n; KRP] = Ok (PStmts [PCall "=" [PVar x; PNum n] []])
+  /\ parse [KNum n; KAssign; KVar x] = Ok (PStmts [PCall "=" [PNum n; PVar x] []])
+  /\ parse [KVar x; KAssign; KVar y; KAssign; KNum n]
+     = Ok (PStmts [PAssign x (PCall "=" [PVar y; PNum n] [])]).
+Proof. intros. vm_compute. repeat split. Qed.
+
+(* Non-vacuity: the documented examples. *)
+Definition va := SVar "a". Definition vb := SVar "b". Definition vc := SVar "c".
+Definition ex (s : sst) : prog := [StExpr s].
+
+Example C02_ex_sub :   (* a-b-c *)
+  wf_prog (ex (SBin BSub (SBin BSub va vb) vc)) = true
+  /\ print_min (ex (SBin BSub (SBin BSub va vb) vc)) = [KVar "a"; KMinus; KVar "b"; KMinus; KVar "c"]
+  /\ parse [KVar "a"; KMinus; KVar "b"; KMinus; KVar "c"]
+     = Ok (PStmts [PCall "-" [PCall "-" [PVar "a"; PVar "b"] []; PVar "c"] []]).
+Proof. vm_compute. repeat split. Qed.
+
+Example C02_ex_sub_right :   (* a-(b-c) keeps its parentheses *)
+  print_min (ex (SBin BSub va (SBin BSub vb vc))) = [KVar "a"; KMinus; KLP; KVar "b"; KMinus; KVar "c"; KRP].
 Proof. vm_compute. reflexivity. Qed.
+
+Example C02_ex_divmul :   (* a/b*c *)
+  print_min (ex (SBin BMul (SBin BDiv va vb) vc)) = [KVar "a"; KDiv; KVar "b"; KMul; KVar "c"]
+  /\ parse [KVar "a"; KDiv; KVar "b"; KMul; KVar "c"]
+     = Ok (PStmts [PCall "*" [PCall "/" [PVar "a"; PVar "b"] []; PVar "c"] []]).
+Proof. vm_compute. repeat split. Qed.
+
+Example C02_ex_pow :   (* a^b^c = (a^b)^c *)
+  print_min (ex (SBin BPow (SBin BPow va vb) vc)) = [KVar "a"; KExp; KVar "b"; KExp; KVar "c"]
+  /\ parse [KVar "a"; KExp; KVar "b"; KExp; KVar "c"]
+     = Ok (PStmts [PCall "^" [PCall "^" [PVar "a"; PVar "b"] []; PVar "c"] []]).
+Proof. vm_compute. repeat split. Qed.
+
+Example C02_ex_neg_fact :   (* -a! = -(a!) *)
+  wf_prog (ex (SSign true (SFact va))) = true
+  /\ print_min (ex (SSign true (SFact va))) = [KMinus; KVar "a"; KBang]
+  /\ parse [KMinus; KVar "a"; KBang] = Ok (PStmts [PCall "-" [PCall "!" [PVar "a"] []] []]).
+Proof. vm_compute. repeat split. Qed.
+
+Example C02_ex_neg_pow :   (* -a^b = (-a)^b *)
+  wf_prog (ex (SBin BPow (SSign true va) vb)) = true
+  /\ print_min (ex (SBin BPow (SSign true va) vb)) = [KMinus; KVar "a"; KExp; KVar "b"]
+  /\ parse [KMinus; KVar "a"; KExp; KVar "b"] = Ok (PStmts [PCall "^" [PCall "-" [PVar "a"] []; PVar "b"] []]).
+Proof. vm_compute. repeat split. Qed.
+
+Example C02_ex_units :   (* a b^2|c d *)
+  parse (print_min (ex (SQty va ([("b", 2%Z)], [("c", 1%Z); ("d", 1%Z)]))))
+  = Ok (PStmts [PQty (PVar "a") ([("b", 2%Z)], [("c", 1%Z); ("d", 1%Z)])])
+  /\ print_min (ex (SQty va ([("b", 2%Z)], [("c", 1%Z); ("d", 1%Z)])))
+     = [KVar "a"; KVar "b"; KExp; KNum (ZLit 2); KBar; KVar "c"; KVar "d"].
+Proof. vm_compute. repeat split. Qed.
+
+Example C02_ex_range :   (* a..b+1 = (a..b)+1 *)
+  parse [KVar "a"; KDots; KVar "b"; KPlus; KNum (ZLit 1)]
+  = Ok (PStmts [PCall "+" [PCall "range" [PVar "a"; PVar "b"] []; PNum (ZLit 1)] []]).
+Proof. vm_compute. reflexivity. Qed.
+
+Example C02_ex_conv :   (* a<b to u = (a<b) to u *)
+  parse [KVar "a"; KLt; KVar "b"; KTo; KVar "u"]
+  = Ok (PStmts [PConv (PCall "<" [PVar "a"; PVar "b"] []) ([("u", 1%Z)], [])]).
+Proof. vm_compute. reflexivity. Qed.
+
+Example C02_ex_call :   (* f(x, k: {y : y in 1..3, y<2}) *)
+  parse [KVar "f"; KLP; KVar "x"; KComma; KVar "k"; KColon; KLBrace; KVar "y"; KColon; KVar "y"; KIn;
+         KNum (ZLit 1); KDots; KNum (ZLit 3); KComma; KVar "y"; KLt; KNum (ZLit 2); KRBrace; KRP]
+  = Ok (PStmts [PCall "f" [PVar "x"]
+          [("k", PCompr (PVar "y") [("y", PCall "range" [PNum (ZLit 1); PNum (ZLit 3)] [])]
+                        [PCall "<" [PVar "y"; PNum (ZLit 2)] []])]]).
+Proof. vm_compute. reflexivity. Qed.
+
+Example C02_ex_stmts :   (* x = 3; x == 3 *)
+  parse [KVar "x"; KAssign; KNum (ZLit 3); KSemi; KVar "x"; KEq; KNum (ZLit 3)]
+  = Ok (PStmts [PAssign "x" (PNum (ZLit 3)); PCall "==" [PVar "x"; PNum (ZLit 3)] []]).
+Proof. vm_compute. reflexivity. Qed.
+
+Example C02_ex_chain_flip :   (* 3 > 2 >= 1 is flipped and reversed; 3 > 2 < 5 is not *)
+  parse [KNum (ZLit 3); KGt; KNum (ZLit 2); KGeq; KNum (ZLit 1)]
+  = Ok (PStmts [PCall "<=_<" [PNum (ZLit 1); PNum (ZLit 2); PNum (ZLit 3)] []])
+  /\ parse [KNum (ZLit 3); KGt; KNum (ZLit 2); KLt; KNum (ZLit 5)]
+  = Ok (PStmts [PCall ">_<" [PNum (ZLit 3); PNum (ZLit 2); PNum (ZLit 5)] []])
+  /\ parse [KNum (ZLit 1); KLt; KNum (ZLit 2); KLt; KNum (ZLit 3); KLt; KNum (ZLit 4)] = Raise ParsingError
+  /\ parse [KVar "a"; KDots; KVar "b"; KDots; KVar "c"] = Raise ParsingError.
+Proof. vm_compute. repeat split. Qed.
+
+(* a program using every construct is in the theorems' domain, and its two texts differ *)
+Definition big : prog :=
+  [StAssign "x" (SNum (ZLit 3));
+   StExpr (SCall "f" [SBin BSub (SBin BSub va vb) (SFact vc); SRange va (SQty (SNum (ZLit 2)) ([("m", 1%Z)], []))]
+             [("k", SCompr (SVar "y") [(Some "y", SRange (SNum (ZLit 1)) (SNum (ZLit 3)));
+                                       (None, SCmp1 CIn (SVar "y") (SArr [SStr "s"; SInst "2020-01-01"]))])]);
+   StExpr (SCmp1 CAssign (SVar "x") (SConv (SCmp2 CGt CGeq va vb (SInterval va vb)) ([("m", 2%Z)], [("s", (-1)%Z)])));
+   StExpr (SBin BPow (SQty (SSign true (SNum (XLit "2.5"))) ([("m", 1%Z)], [])) (SParen (SBin BPm va vb)))].
+
+Example C02_ex_big :
+  wf_prog big = true
+  /\ print_min big <> print_full big
+  /\ parse (print_min big) = Ok (desugar_prog big)
+  /\ parse (print_full big) = Ok (desugar_prog big).
+Proof. vm_compute. repeat split. discriminate. Qed.
+
+Print Assumptions C02_min_roundtrip.
+Print Assumptions C02_full_roundtrip.
+Print Assumptions C02_min_equals_full.
+Print Assumptions C02_same_value.
+Print Assumptions C02_redundant_parens.
+Print Assumptions C02_loop_correct.
+Print Assumptions C02_left_nested_no_parens.
+Print Assumptions C02_right_nested_parens.
+Print Assumptions C02_positional_never_keyword.
+Print Assumptions C02_kwarg_position.
+Print Assumptions C02_assignment_position.
